@@ -121,6 +121,13 @@ def run(ck: Checker):
                 if not any(s_.id in reachable(cfg, [d.id], avoid={loop}) for s_ in sends):
                     probs.append('after a failed dispatch nothing is sent back: the caller waits for ever')
     ck.ob('C14-2', f, cm[0].ast, not probs, '; '.join(probs) if probs else 'a failing dispatch is answered with a #TRACEBACK message and the serve loop goes on; only EOF / a failed send end it')
+    # ------------------------------------------------------------------ C14-8
+    # "an exception raised by the method is raised in the caller with the same type and arguments and carries the
+    # server-side traceback": the carrier is RemoteException; its obligations (C15) are decided here as well
+    from . import c15
+
+    with ck.as_rule('C14-8', 'exception transport: the RemoteException obligations C15-1..5, on which "carries the server-side traceback" rests', minimum=5):
+        c15.run(ck)
     # ------------------------------------------------------------------ C14-7
     ck.rule('C14-7', "the in-process shortcut is taken only for proxies of this very server: every function that receives a token obtains the server with get_server(<token>.address), and get_server returns the running server only when the addresses agree (AGREE)", minimum=2)
     gs = mod.func('get_server')
